@@ -48,7 +48,7 @@ def impl(line):
             fs = [(unesc(t[5 + 2 * i]), mk_buf(t[6 + 2 * i])) for i in range(n)]
             return show_buf(ComputeFunctions[fid][0](fs, pos))
         raise ValueError('bad op')
-    k, v = guarded(run, 10.0)
+    k, v = guarded(run, 3.0)
     return v if k == 'ok' else 'err:' + v
 
 def parse_fields(s):
@@ -124,6 +124,15 @@ def branch(line, out):
 
 def lbits(data): return 'L:' + packets.bits_of(data)
 
+def table_values(name):
+    """the next-protocol numbers the library declares (read from /repo at run time, so that new entries get exercised)"""
+    try:
+        import importlib
+        mod, attr = name
+        return [int(x) for x in getattr(importlib.import_module(mod), attr)]
+    except Exception:
+        return []
+
 def gen_wellformed(rng, config):
     """(bytes, expected fields) for a parser configuration"""
     if config in ('IPv6-UDP-CoAP', 'IPv4-UDP-CoAP', 'CoAP', 'SCTP'):
@@ -132,7 +141,10 @@ def gen_wellformed(rng, config):
         kind = rng.choice(['coap', 'sctp', 'other'])
         if kind == 'coap': pd, pe, _ = packets.gen_coap(rng); port = 5683
         elif kind == 'sctp': pd, pe = packets.build_sctp(rng); port = 132
-        else: pd, pe, port = bytes(rng.randrange(256) for _ in range(rng.randrange(0, 12))), [], rng.choice([1, 80, 5684, 131])
+        else:
+            known = {5683, 132}
+            extra = [x for x in table_values(('microschc.protocol.udp', 'UDP_SUPPORTED_PAYLOAD_PROTOCOLS')) if x not in known]
+            pd, pe, port = bytes(rng.randrange(256) for _ in range(rng.randrange(0, 12))), [], rng.choice([1, 80, 5684, 131] + extra * 3)
         h, e = packets.build_udp(rng, pd, dport=port, correct=False)
         return h + pd, e + pe
     v6 = config == 'IPv6'
@@ -140,7 +152,8 @@ def gen_wellformed(rng, config):
     if kind == 'sctp':
         pd, pe = packets.build_sctp(rng); proto = 132
     elif kind == 'other':
-        pd, pe, proto = bytes(rng.randrange(256) for _ in range(rng.randrange(0, 30))), [], rng.choice([6, 1, 58, 0, 255])
+        extra = [x for x in table_values(('microschc.protocol.ipv6' if v6 else 'microschc.protocol.ipv4', 'IPV6_SUPPORTED_PAYLOAD_PROTOCOLS' if v6 else 'IPV4_SUPPORTED_PAYLOAD_PROTOCOLS')) if x not in (17, 132) and x < 256]
+        pd, pe, proto = bytes(rng.randrange(256) for _ in range(rng.randrange(0, 30))), [], rng.choice([6, 1, 58, 0, 255] + extra * 3)
     else:
         if kind == 'udp-coap': cd, ce, _ = packets.gen_coap(rng); port = 5683
         else: cd, ce, port = bytes(rng.randrange(256) for _ in range(rng.randrange(0, 12))), [], rng.choice([1, 80, 5684])
@@ -275,6 +288,23 @@ def gen_compute(rng, q):
         ih2[10:12] = b'\x00\x00'; ck = packets.inet_checksum(bytes(ih2)); ih2[10:12] = struct.pack('!H', ck)
         exp = packets.cut(packets.IPV4, packets.bits_of(bytes(ih2)))
         yield emit('IPv4:Header Checksum', exp, packets.bits_of(pl), format(ck, '016b'))
+    # sums whose single fold carries again: the raw 16-bit word sum S has (S & 0xffff) + (S >> 16) >= 0x10000
+    for n in range(40 if q else 400):
+        v6 = n % 2 == 0
+        pl = bytearray([0xff, 0xfe] * rng.randrange(4, 20) + [rng.randrange(256) for _ in range(rng.choice([0, 1]))])
+        sport, dport = rng.randrange(65536), rng.choice([1000, 2000])
+        if v6: ih, ie, src, dst = packets.build_ipv6(rng, bytes(8) + pl, 17, True)
+        else: ih, ie, src, dst = packets.build_ipv4(rng, bytes(8) + pl, 17, True)
+        pl[0:2] = b'\x00\x00'
+        udp0 = struct.pack('!HHHH', sport, dport, 8 + len(pl), 0) + bytes(pl)
+        words = udp0 + (b'\x00' if len(udp0) % 2 else b'')
+        S0 = sum(struct.unpack('!%dH' % (len(words) // 2), words))
+        w = (0xffff - (S0 & 0xffff) - rng.choice([0, 0, 1, 2])) & 0xffff
+        pl[0:2] = struct.pack('!H', w)
+        uh, ue = packets.build_udp(rng, bytes(pl), src, dst, v6=v6, dport=dport, correct=True, sport=sport)
+        exp = ie + ue
+        fd = dict((i, b) for i, _, b in exp)
+        yield emit('UDP:Checksum', exp, packets.bits_of(bytes(pl)), fd['UDP:Checksum'])
     for n in range(N // 2):
         data, exp = packets.build_sctp(rng, correct=True)
         fd = dict((i, b) for i, _, b in exp[:4])
